@@ -1,0 +1,82 @@
+//go:build verif
+
+// Verification hooks for C09 (compiled only with -tags verif). Add-only: thin
+// exported wrappers around the unexported number readers/writers of decimal.go
+// and json.base.go. Nothing here is referenced by the library itself.
+
+package codec
+
+import "math"
+
+// VerifReadFloatResult is readFloatResult, exported field by field.
+type VerifReadFloatResult struct {
+	Mantissa                     uint64
+	Exp                          int8
+	Neg, Trunc, Bad, Hardexp, Ok bool
+}
+
+// VerifReadFloat runs readFloat(b, fi) with fi = fi32 (which=0), fi64 (1) or fi64u (2).
+func VerifReadFloat(b []byte, which int) VerifReadFloatResult {
+	y := fi64
+	switch which {
+	case 0:
+		y = fi32
+	case 2:
+		y = fi64u
+	}
+	r := readFloat(b, y)
+	return VerifReadFloatResult{r.mantissa, r.exp, r.neg, r.trunc, r.bad, r.hardexp, r.ok}
+}
+
+// VerifParseFloat64Reader runs the exact fast path on (mantissa, exp, neg).
+// panicked reports an index-out-of-range in the power-of-ten tables.
+func VerifParseFloat64Reader(mantissa uint64, exp int8, neg bool) (bits uint64, fail, panicked bool) {
+	defer func() {
+		if recover() != nil {
+			panicked = true
+		}
+	}()
+	f, fail := parseFloat64_reader(readFloatResult{mantissa: mantissa, exp: exp, neg: neg, ok: true})
+	return math.Float64bits(f), fail, false
+}
+
+// VerifParseFloat32Reader is the float32 fast path.
+func VerifParseFloat32Reader(mantissa uint64, exp int8, neg bool) (bits uint32, fail, panicked bool) {
+	defer func() {
+		if recover() != nil {
+			panicked = true
+		}
+	}()
+	f, fail := parseFloat32_reader(readFloatResult{mantissa: mantissa, exp: exp, neg: neg, ok: true})
+	return math.Float32bits(f), fail, false
+}
+
+// VerifParseFloat64 is parseFloat64 (fast path, else strconv).
+func VerifParseFloat64(b []byte) (bits uint64, err error) {
+	f, err := parseFloat64(b)
+	return math.Float64bits(f), err
+}
+
+// VerifParseFloat32 is parseFloat32.
+func VerifParseFloat32(b []byte) (bits uint32, err error) {
+	f, err := parseFloat32(b)
+	return math.Float32bits(f), err
+}
+
+// VerifParseUint64Simple is parseUint64_simple.
+func VerifParseUint64Simple(b []byte) (uint64, bool) { return parseUint64_simple(b) }
+
+// VerifParseIntegerBytes is parseInteger_bytes.
+func VerifParseIntegerBytes(b []byte) (u uint64, neg, ok bool) { return parseInteger_bytes(b) }
+
+// VerifJsonEncodeUint is jsonEncodeUint on a fresh scratch array.
+func VerifJsonEncodeUint(neg, quotes bool, u uint64) []byte {
+	var b [48]byte
+	return append([]byte(nil), jsonEncodeUint(neg, quotes, u, &b)...)
+}
+
+// VerifJsonFloatFmtPrec64 is jsonFloatStrconvFmtPrec64.
+func VerifJsonFloatFmtPrec64(f float64) (byte, int8) { return jsonFloatStrconvFmtPrec64(f) }
+
+// VerifJsonFloatFmtPrec32 is jsonFloatStrconvFmtPrec32.
+func VerifJsonFloatFmtPrec32(f float32) (byte, int8) { return jsonFloatStrconvFmtPrec32(f) }
